@@ -6,7 +6,7 @@ import Mb2.HTags
 import Mb2.Lemmas.Tags
 import Mb2.Props.C03
 import Mb2.Props.C10
-import Mb2.Props.C11
+import Mb2.Props.C11Parts
 import Mb2.Props.C15
 namespace Mb2.C09
 open Mb2
